@@ -291,6 +291,50 @@ func c10Schema(c *core.Ctx, k int) {
 // read is the value held, or the read fails
 func c10GoFields(c *core.Ctx) {
 	type named int64
+	// values of Go types defined in terms of an unsigned type, converted to every integer format: the number held, or an error
+	type nu64 uint64
+	type nu uint
+	type nup uintptr
+	type nu16 uint16
+	for _, big := range []uint64{0, 1, 65535, 1<<31 - 1, 1 << 31, 1<<63 - 1, 1 << 63, 1<<63 + 1<<31, math.MaxUint64} {
+		srcs := map[string]interface{}{"named-uint64": nu64(big), "named-uint": nu(big), "named-uintptr": nup(big)}
+		if big <= 65535 {
+			srcs["named-uint16"] = nu16(big)
+		}
+		for sname, src := range srcs {
+			for _, f := range []val.Format{val.FmtInt8, val.FmtInt16, val.FmtInt32, val.FmtInt64, val.FmtUInt8, val.FmtUInt16, val.FmtUInt32, val.FmtUInt64, val.FmtInt64List, val.FmtInt32List, val.FmtDecimal64} {
+				tag := fmt.Sprintf("named-unsigned/%s<-%s", f, sname)
+				for _, wrap := range []string{"plain", "in-slice"} {
+					var in interface{} = src
+					if wrap == "in-slice" {
+						if !f.IsList() {
+							continue
+						}
+						in = []interface{}{src}
+					}
+					c.Eval()
+					c.Shape("%s/%s", tag, wrap)
+					var got val.Value
+					var gerr error
+					if c.Guard(tag, func() { got, gerr = val.Conv(f, in) }) || gerr != nil || got == nil {
+						continue
+					}
+					gotS := got.String()
+					if l, isList := got.(val.Listable); isList && l.Len() == 1 {
+						gotS = l.Item(0).String()
+					}
+					if f == val.FmtDecimal64 {
+						if fl, ok := got.Value().(float64); ok && fl == float64(big) {
+							continue
+						}
+					}
+					if gotS != fmt.Sprint(big) {
+						c.Violate("inexact/"+tag, "val.Conv(%s, %T(%d)) = %s", f, src, big, gotS)
+					}
+				}
+			}
+		}
+	}
 	widths := []struct {
 		yang   string
 		lo, hi int64
